@@ -1067,7 +1067,10 @@ class PyCdlib:
                                       dir_record)
                 offset += lenbyte
 
-                self._set_rock_ridge(rr)
+                if new_record.rock_ridge is None or new_record.rock_ridge.dr_entries.ce_record is None:
+                    # With a continuation entry, the Rock Ridge version is only
+                    # known once the continuation area has been parsed below.
+                    self._set_rock_ridge(rr)
 
                 # Cache some properties of this record for later use.
                 is_symlink = new_record.is_symlink()
@@ -1139,6 +1142,7 @@ class PyCdlib:
                     new_record.rock_ridge.parse(con_block, False,
                                                 new_record.rock_ridge.bytes_to_skip,
                                                 True, new_record.file_identifier())
+                    self._set_rock_ridge(new_record.rock_ridge.rr_version)
                     cdfp.seek(orig_pos)
                     block = self.pvd.track_rr_ce_entry(ce_record.bl_cont_area,
                                                        ce_record.offset_cont_area,
